@@ -18,6 +18,12 @@ def sh(cmd, cwd=None, timeout=3600, env=None):
     return p.returncode, (p.stdout + p.stderr)
 
 
+def _verdict(summary):
+    """The OK / FAILED part of a selftest summary (the 'Ran n tests' line can fall outside the captured tail)."""
+    toks = (summary or "").split()
+    return " ".join(t for i, t in enumerate(toks) if not (t == "Ran" or (i and toks[i - 1] == "Ran") or (i > 1 and toks[i - 2] == "Ran")))
+
+
 def main():
     a = sys.argv[1:]
     src, prop, name = a[0], a[1], a[2]
@@ -65,7 +71,7 @@ def main():
         if selftest:
             rc, out = sh(f"/venv/bin/python -m breezy selftest {selftest} 2>&1 | tail -n 4", cwd=wt, env=env)
             s_patched = " ".join(l.split(" in ")[0] for l in out.strip().splitlines() if l.startswith(("Ran", "OK", "FAILED")))
-            meta["selftest"] = {"args": selftest, "clean": s_clean, "patched": s_patched, "outcomes_identical": s_clean == s_patched and "OK" in s_patched}
+            meta["selftest"] = {"args": selftest, "clean": s_clean, "patched": s_patched, "outcomes_identical": _verdict(s_clean) == _verdict(s_patched) and "OK" in s_patched}
         # which checks fire
         fired = {}
         for c in checks.split(","):
@@ -96,4 +102,5 @@ def main():
         print(" ", c, "rc", v["rc"], *v["lines"][:3], sep="\n    ")
 
 
-main()
+if __name__ == "__main__":
+    main()
